@@ -1452,6 +1452,16 @@ impl BufferParser for Parser {
     }
 }
 
+/// Verification hook (compiled only with `--cfg icy_engine_verif`): the stored macro bodies as raw bytes, by macro id.
+#[cfg(icy_engine_verif)]
+impl Parser {
+    pub fn verif_macro_bytes(&self) -> Vec<(usize, Vec<u8>)> {
+        let mut v: Vec<(usize, Vec<u8>)> = self.macros.iter().map(|(k, m)| (*k, m.as_bytes().to_vec())).collect();
+        v.sort();
+        v
+    }
+}
+
 impl Parser {
     fn invoke_macro_by_id(&mut self, buf: &mut Buffer, current_layer: usize, caret: &mut Caret, id: i32) {
         let m = if let Some(m) = self.macros.get(&(id as usize)) {
